@@ -1,0 +1,32 @@
+//! Verification hooks (feature `verif-hooks`, off by default).
+//!
+//! An add-only facade that gives an external verification harness access to
+//! crate-private items, plus named pause points that let a harness replay a
+//! chosen thread interleaving deterministically on the real code. With the
+//! feature off none of this is compiled.
+
+use std::cell::RefCell;
+use std::sync::Arc;
+
+pub mod frim;
+
+/// A pause-point handler installed per thread by a harness.
+pub type PointFn = Arc<dyn Fn(&'static str) + Send + Sync>;
+
+thread_local! {
+    static POINT: RefCell<Option<PointFn>> = const { RefCell::new(None) };
+}
+
+/// Installs (or clears) the pause-point handler of the calling thread.
+pub fn set_point_handler(f: Option<PointFn>) {
+    POINT.with(|p| *p.borrow_mut() = f);
+}
+
+/// A named pause point. A no-op unless the calling thread has a handler.
+#[inline]
+pub fn point(name: &'static str) {
+    let f = POINT.with(|p| p.borrow().clone());
+    if let Some(f) = f {
+        f(name)
+    }
+}
